@@ -88,6 +88,7 @@ fn main() {
     if std::env::var("TSG_VERBOSE_PANIC").is_err() {
         std::panic::set_hook(Box::new(|_| {}));
     }
+    report::OUT_PATH.set(out.clone()).ok();
     let mut rep = report::Report::new(&prop, &tier, seed);
     match prop.as_str() {
         "C01" => props::c01::run(&mut rep, &tier, seed),
